@@ -4,6 +4,7 @@ package main
 // obligations, known findings, evidence and exit codes.  See /verif/DESIGN.md §1.
 
 import (
+	_ "embed"
 	"encoding/json"
 	"fmt"
 	"go/ast"
@@ -12,6 +13,7 @@ import (
 	"os"
 	"path/filepath"
 	"sort"
+	"strconv"
 	"strings"
 	"time"
 
@@ -53,7 +55,7 @@ func repoPkg(path string) bool {
 	return path == luaPath || strings.HasPrefix(path, luaPath+"/")
 }
 
-var dumpFuncsMode bool
+var dumpFuncsMode, dumpFieldsMode bool
 
 func loadProg(dir, goos, goarch string) (*Prog, error) {
 	env := append(os.Environ(),
@@ -73,6 +75,12 @@ func loadProg(dir, goos, goarch string) (*Prog, error) {
 		return nil, err
 	}
 	if dumpFuncsMode {
+		if dumpFieldsMode {
+			for _, l := range dumpFields(pkgs) {
+				fmt.Println(l)
+			}
+			os.Exit(0)
+		}
 		for _, l := range dumpFuncs(pkgs) {
 			fmt.Println(l)
 		}
@@ -195,6 +203,15 @@ func loadProg(dir, goos, goarch string) (*Prog, error) {
 		}
 	}
 	sort.Slice(p.srcFuncs, func(i, j int) bool { return p.srcFuncs[i].Pos() < p.srcFuncs[j].Pos() })
+	// rename resolution (normalize.go): an anchor of the baseline that was renamed, or turned from a method
+	// into a function, is found under its baseline name as well
+	renamedTo = renamePairs(pkgs)
+	for nk, ok := range renamedTo {
+		if fn := p.funcs[nk]; fn != nil && p.funcs[ok] == nil {
+			p.funcs[ok] = fn
+			fmt.Printf("normalise: %s is the baseline's %s under a new name\n", nk[strings.Index(nk, ":")+1:], ok[strings.Index(ok, ":")+1:])
+		}
+	}
 	return p, nil
 }
 
@@ -219,12 +236,95 @@ func (p *Prog) Pkg(pkg string) *packages.Package { return p.Pkgs[short(pkg)] }
 func (p *Prog) SPkg(pkg string) *ssa.Package     { return p.SPkgs[short(pkg)] }
 
 // Obj looks up a package-level object.
+// Global: the package-level variable `name` of the baseline (under its current name) as an SSA global.
+func (p *Prog) Global(pkg, name string) *ssa.Global {
+	sp := p.SPkg(pkg)
+	if sp == nil {
+		return nil
+	}
+	if g, ok := sp.Members[name].(*ssa.Global); ok {
+		return g
+	}
+	if o := p.Obj(pkg, name); o != nil {
+		g, _ := sp.Members[o.Name()].(*ssa.Global)
+		return g
+	}
+	return nil
+}
+
 func (p *Prog) Obj(pkg, name string) types.Object {
 	pk := p.Pkg(pkg)
 	if pk == nil {
 		return nil
 	}
-	return pk.Types.Scope().Lookup(name)
+	if o := pk.Types.Scope().Lookup(name); o != nil {
+		return o
+	}
+	// a renamed package-level variable: the one variable of the package the baseline does not know that has
+	// the type the baseline records for `name`
+	if bv, ok := baselineFields[short(pkg)+":$var."+name]; ok {
+		var found types.Object
+		sc := pk.Types.Scope()
+		for _, n := range sc.Names() {
+			v, isVar := sc.Lookup(n).(*types.Var)
+			if !isVar {
+				continue
+			}
+			if _, known := baselineFields[short(pkg)+":$var."+n]; known || shapeString(v.Type(), 0) != bv.typ {
+				continue
+			}
+			if found != nil {
+				return nil // ambiguous
+			}
+			found = v
+		}
+		return found
+	}
+	// a renamed struct type: the one struct type of the package the baseline does not know whose fields
+	// have, position by position, the types the baseline records for `name`
+	prefix := short(pkg) + ":" + name + "."
+	want := map[int]string{}
+	for k, bf := range baselineFields {
+		if strings.HasPrefix(k, prefix) {
+			want[bf.index] = bf.typ
+		}
+	}
+	if len(want) == 0 {
+		return nil
+	}
+	known := map[string]bool{}
+	for k := range baselineFields {
+		if strings.HasPrefix(k, short(pkg)+":") {
+			if !strings.Contains(k, ":$var.") {
+				known[k[len(short(pkg))+1:strings.LastIndex(k, ".")]] = true
+			}
+		}
+	}
+	var found types.Object
+	sc := pk.Types.Scope()
+	for _, n := range sc.Names() {
+		tn, ok := sc.Lookup(n).(*types.TypeName)
+		if !ok || known[n] {
+			continue
+		}
+		st, ok := tn.Type().Underlying().(*types.Struct)
+		if !ok || st.NumFields() != len(want) {
+			continue
+		}
+		same := true
+		for i := 0; i < st.NumFields(); i++ {
+			if fieldTypeString(st.Field(i)) != want[i] {
+				same = false
+			}
+		}
+		if same {
+			if found != nil {
+				return nil // ambiguous
+			}
+			found = tn
+		}
+	}
+	return found
 }
 
 // Field returns the *types.Var of a struct field of a named type.
@@ -242,7 +342,99 @@ func (p *Prog) Field(pkg, typ, field string) *types.Var {
 			return st.Field(i)
 		}
 	}
+	// a renamed field (normalize.go, baseline_fields.txt): the baseline knows the field's position and type;
+	// the field now at that position, of that type, under a name the baseline does not know for this struct,
+	// is the same field
+	key := short(pkg) + ":" + typ + "."
+	if bf, ok := baselineFields[key+field]; ok && bf.index < st.NumFields() {
+		cand := st.Field(bf.index)
+		if _, known := baselineFields[key+cand.Name()]; !known && fieldTypeString(cand) == bf.typ {
+			return cand
+		}
+	}
 	return nil
+}
+
+type baselineField struct {
+	index int
+	typ   string
+}
+
+//go:embed baseline_fields.txt
+var baselineFieldsTxt string
+
+var baselineFields = func() map[string]baselineField {
+	m := map[string]baselineField{}
+	for _, l := range strings.Split(baselineFieldsTxt, "\n") {
+		parts := strings.Split(strings.TrimSpace(l), "\t")
+		if len(parts) == 3 {
+			i, _ := strconv.Atoi(parts[1])
+			m[parts[0]] = baselineField{i, parts[2]}
+		}
+	}
+	return m
+}()
+
+// shapeString: the type with the repository's own named non-struct types (func, array, slice, map, basic)
+// replaced by what they stand for, so that renaming such a type does not change the string.
+func shapeString(t types.Type, depth int) string {
+	q := func(p *types.Package) string { return p.Name() }
+	if depth > 4 {
+		return types.TypeString(t, q)
+	}
+	switch x := t.(type) {
+	case *types.Named:
+		if x.Obj().Pkg() != nil && repoPkg(x.Obj().Pkg().Path()) {
+			switch x.Underlying().(type) {
+			case *types.Struct, *types.Interface:
+			default:
+				return shapeString(x.Underlying(), depth+1)
+			}
+		}
+		return types.TypeString(t, q)
+	case *types.Pointer:
+		return "*" + shapeString(x.Elem(), depth+1)
+	case *types.Slice:
+		return "[]" + shapeString(x.Elem(), depth+1)
+	case *types.Array:
+		return fmt.Sprintf("[%d]%s", x.Len(), shapeString(x.Elem(), depth+1))
+	case *types.Map:
+		return "map[" + shapeString(x.Key(), depth+1) + "]" + shapeString(x.Elem(), depth+1)
+	}
+	return types.TypeString(t, q)
+}
+
+func fieldTypeString(v *types.Var) string {
+	return types.TypeString(v.Type(), func(p *types.Package) string { return p.Name() })
+}
+
+func dumpFields(pkgs []*packages.Package) []string {
+	var out []string
+	for _, pk := range pkgs {
+		if !repoPkg(pk.PkgPath) || pk.Types == nil {
+			continue
+		}
+		sc := pk.Types.Scope()
+		for _, name := range sc.Names() {
+			if v, isVar := sc.Lookup(name).(*types.Var); isVar {
+				out = append(out, fmt.Sprintf("%s:$var.%s\t0\t%s", pk.PkgPath, name, shapeString(v.Type(), 0)))
+				continue
+			}
+			tn, ok := sc.Lookup(name).(*types.TypeName)
+			if !ok {
+				continue
+			}
+			st, ok := tn.Type().Underlying().(*types.Struct)
+			if !ok {
+				continue
+			}
+			for i := 0; i < st.NumFields(); i++ {
+				out = append(out, fmt.Sprintf("%s:%s.%s\t%d\t%s", pk.PkgPath, name, st.Field(i).Name(), i, fieldTypeString(st.Field(i))))
+			}
+		}
+	}
+	sort.Strings(out)
+	return out
 }
 
 func (p *Prog) pos(pos token.Pos) string {
